@@ -426,6 +426,48 @@ def many_classes_case(case):
     return q
 
 
+WORLD_ARGS = {'Environment': (), 'SpaceWorld': (3, 2), 'DiscreteWorld': (2, 2, 2), 'GridWorld': (3, 2), 'LineWorld': (4,)}
+
+
+def world_tags_case(case):
+    """The bundled world classes are agent classes too: a default tag given to one of them (or to a user subclass, or to a
+    subclass of that) shows on instances of exactly that class - every world kind, every level, set and reset."""
+    from mc.engine.seams import reset_library
+    reset_library()
+    m = new_model(seed=1)
+    wname, level, tag = case['world'], case['level'], case['tag']
+    base = getattr(Envs, wname) if wname != 'Environment' else Core.Environment
+    sub = type('Reserve', (base,), {})
+    subsub = type('Park', (sub,), {})
+    chain = [base, sub, subsub]
+    others = [getattr(Envs, n) if n != 'Environment' else Core.Environment for n in WORLD_ARGS if n != wname]
+    chain[level].tag = tag
+    q = 0
+    for rounds in range(2):
+        for i, cls in enumerate(chain):
+            want = tag if i == level else 0
+            inst = cls(m, *WORLD_ARGS[wname])
+            q += 1
+            if cls.tag != want or inst.tag != want:
+                raise Violation(f'default tag {tag} given to {chain[level].__name__} (level {level} above {wname}): class '
+                                f'{cls.__name__} shows default {cls.tag}, a new instance has tag {inst.tag}', expected=want,
+                                observed=[cls.tag, inst.tag])
+        for o in others:
+            n = o.__name__
+            inst = o(m, *WORLD_ARGS[n])
+            q += 1
+            if o.tag != 0 or inst.tag != 0:
+                raise Violation(f'default tag {tag} given to {chain[level].__name__}: the unrelated class {n} shows default '
+                                f'{o.tag}, a new instance has tag {inst.tag}', expected=0, observed=[o.tag, inst.tag])
+        a = Core.Agent('plain', m)
+        if a.tag != 0 or Core.Agent.tag != 0:
+            raise Violation(f'default tag {tag} given to {chain[level].__name__}: plain agents show tag {a.tag}')
+        if rounds == 0:
+            chain[level].tag = 0        # and back: everything shows 0 again in the second round
+            tag = 0
+    return q
+
+
 # the cheap legs run once more under the runner's ambient configurations (python -O, other logger levels)
 AMBIENT_LEGS = True
 
@@ -440,6 +482,19 @@ def run(ctx):
         ctx.report(case, v)
         return
     ctx.leg('many_classes', note='a chain and a fan of 400 classes each, 400 component types, one class holding all of them')
+    nw = 0
+    for wname in WORLD_ARGS:
+        for level in (0, 1, 2):
+            for tag in (3, np.int64(5)):
+                case = {'leg': 'world_tags', 'world': wname, 'level': level, 'tag': int(tag)}
+                ctx.traces += 1
+                nw += 1
+                try:
+                    ctx.transitions += hbfs._guard(world_tags_case, case)
+                except Violation as v:
+                    ctx.report(case, v)
+                    return
+    ctx.leg('world_tags', cases=nw, note='default tags on the bundled world classes and two levels of user subclasses')
     depth = 2 if ctx.small else 3 if ctx.tier == 'quick' else 4
     h = Harness()
     r = hbfs.explore(ctx, h, 'hierarchy', max_depth=depth, procs=ctx.procs)
@@ -467,6 +522,9 @@ def run(ctx):
 def replay(case):
     if case['leg'] == 'many_classes':
         hbfs._guard(many_classes_case, case)
+        return
+    if case['leg'] == 'world_tags':
+        hbfs._guard(world_tags_case, case)
         return
     c = case['config']
     hbfs.replay_case(Harness(c.get('op_classes'), c.get('op_types', ('X', 'Y')), c.get('subclassing', True),
